@@ -5,6 +5,7 @@ package main
 import (
 	"fmt"
 	"go/ast"
+	"go/constant"
 	"go/token"
 	"go/types"
 	"sort"
@@ -270,6 +271,11 @@ func branchesAt(blk *ssa.BasicBlock) []branchFact {
 		}
 		bo, ok := ifi.Cond.(*ssa.BinOp)
 		if !ok {
+			// a condition computed as a value (x/tools v0.29 evaluates `case a && b:` of a switch
+			// without a tag into a phi of booleans): the comparisons its truth implies
+			if e := forcedEdge(d, blk); e >= 0 {
+				out = append(out, boolFacts(ifi.Cond, e == 0, 0)...)
+			}
 			continue
 		}
 		if e := forcedEdge(d, blk); e >= 0 {
@@ -277,6 +283,55 @@ func branchesAt(blk *ssa.BasicBlock) []branchFact {
 		}
 	}
 	return out
+}
+
+// boolFacts: the comparisons that hold when the boolean value v has the given
+// truth: v itself if it is a comparison, the operand of a negation, and for the
+// phi that go/ssa builds for a && b (false from the block that tested a, b's
+// value from the block behind it) both conjuncts when it is true — dually both
+// disjuncts of a || b when it is false.
+func boolFacts(v ssa.Value, truth bool, depth int) []branchFact {
+	if depth > 4 {
+		return nil
+	}
+	edge := 1
+	if truth {
+		edge = 0
+	}
+	switch x := v.(type) {
+	case *ssa.BinOp:
+		switch x.Op {
+		case token.EQL, token.NEQ, token.LSS, token.LEQ, token.GTR, token.GEQ:
+			return []branchFact{{x, edge}}
+		}
+	case *ssa.UnOp:
+		if x.Op == token.NOT {
+			return boolFacts(x.X, !truth, depth+1)
+		}
+	case *ssa.Phi:
+		if len(x.Edges) != 2 {
+			return nil
+		}
+		for i := 0; i < 2; i++ {
+			k, ok := x.Edges[i].(*ssa.Const)
+			if !ok || k.Value == nil || k.Value.Kind() != constant.Bool || constant.BoolVal(k.Value) == truth {
+				continue
+			}
+			// the constant edge cannot have been taken: the value is the other edge's
+			a, bb := x.Block().Preds[i], x.Block().Preds[1-i]
+			if len(bb.Preds) != 1 || bb.Preds[0] != a {
+				continue
+			}
+			ifa, ok := a.Instrs[len(a.Instrs)-1].(*ssa.If)
+			if !ok {
+				continue
+			}
+			out := boolFacts(x.Edges[1-i], truth, depth+1)
+			out = append(out, boolFacts(ifa.Cond, a.Succs[0] == bb, depth+1)...)
+			return out
+		}
+	}
+	return nil
 }
 
 // relation of (X ? Y) effective on the edge, normalised so that `left` is on the left.
